@@ -73,7 +73,14 @@ fn acc() -> BoxedStrategy<Acc> {
     proptest::sample::select(ALL_ACC.to_vec()).boxed()
 }
 fn hint() -> BoxedStrategy<Hint> {
-    proptest::sample::select(vec![Hint::Exact, Hint::Low, Hint::Zero]).boxed()
+    prop_oneof![
+        3 => Just(Hint::Exact),
+        2 => Just(Hint::Low),
+        1 => Just(Hint::Zero),
+        1 => Just(Hint::Unbounded),
+        3 => (0u32..80).prop_map(Hint::Over),
+    ]
+    .boxed()
 }
 
 /// Source lengths: up to `m` with a bias to small numbers, occasionally around N (resolved by
@@ -181,7 +188,7 @@ fn cap(p: Prop) -> BoxedStrategy<u32> {
                 3..=8 => 6,
                 9..=17 => 5,
                 18..=64 => 3,
-                65..=256 => 2,
+                65..=256 => 3,
                 _ => 1,
             };
             (w, n as u32)
@@ -225,12 +232,9 @@ pub fn case(p: Prop, max_ops: usize) -> BoxedStrategy<Case> {
         .prop_map(|(n, s, l, route, fill, ctor, salt, ops, fault)| {
             let start = if n == 0 { 0 } else { (s as u32 * n) >> 16 };
             let len = (l as u32 * (n + 1)) >> 16;
-            let fault = fault.map(|(kind, k, at)| Fault {
-                kind,
-                k,
-                op_index: ((at as usize * (ops.len() + 1)) >> 16) as u32,
-            });
-            Case { n, ctor, route, start, len, fill, fault, ops, salt }
+            let _ = Fault { kind: FaultKind::Drop, k: 0, op_index: 0 };
+            let fault_pick = fault.map(|(kind, k, at)| (kind, at, (k as u16).wrapping_mul(5461)));
+            Case { n, ctor, route, start, len, fill, fault: None, fault_pick, ops, salt }
         })
         .boxed()
 }
